@@ -335,6 +335,9 @@ def opFindTop (req : Json) : Except String Json := do
             | .error (.internal k) => FT.Cand.broken (.internal k))
         | "corrupt" => pure (FT.Cand.broken .syntax)
         | "isdir" => pure (FT.Cand.broken (.os .EISDIR))
+        -- a special file (named pipe, socket, device) is passed over like a missing one (repair of finding F31:
+        -- opening a named pipe blocked for good)
+        | "special" => pure FT.Cand.absent
         | _ => throw s!"bad cand kind {kind}"
       pure (nm, cand)
     pure ({ dev := ← (← l.getObjVal? "dev").getNat?, isRoot := ← (← l.getObjVal? "root").getBool?,
